@@ -111,7 +111,12 @@ func (ct *CSVTable) emitRow(w io.Writer, columnCount int, cells []tabular.Cell) 
 			return err
 		}
 	}
-	if _, err := fmt.Fprint(w, ct.csvEscape(cells[i].String())); err != nil {
+	if max == 0 {
+		// a row without cells is columnCount empty fields; this is the first
+		if _, err := fmt.Fprint(w, "\"\""); err != nil {
+			return err
+		}
+	} else if _, err := fmt.Fprint(w, ct.csvEscape(cells[i].String())); err != nil {
 		return err
 	}
 	i++
